@@ -295,7 +295,9 @@ def run_fuzz(case):
                     actions_log.append("put")
                     ep.put(w.put_request())
                 elif act == "put":
-                    pk = rng.choice(["same", "empty", "md_only", "missing", "unknown_dest"])
+                    pk = rng.choice(["same", "empty", "md_only", "missing", "unknown_dest", "long_source_name", "long_dest_name"])
+                    if pk.startswith("long_") and w.cfg["fs"] != "mem":
+                        pk = "same"  # (the host file system of the native filestore has its own limit per path component)
                     actions_log.append("put:" + pk)
                     if pk == "same":
                         req = w.put_request()
@@ -303,6 +305,13 @@ def run_fuzz(case):
                         req = PutRequest(ByteFieldGenerator.from_int(2, 77), w.src_path, w.dst_req_path, None, None)
                     elif pk == "md_only":
                         req = PutRequest(w.dst_id, None, None, None, None)
+                    elif pk in ("long_source_name", "long_dest_name"):
+                        # an existing file whose path name does not fit the 255 byte LV field of the Metadata PDU (or such a destination name)
+                        long_path = w.root / "srcdir" / ("n" * rng.choice([230, 256, 300]))
+                        w.write_raw("src", long_path, b"abc")
+                        req = PutRequest(w.dst_id, long_path, w.dst_req_path, None, None) if pk == "long_source_name" else PutRequest(
+                            w.dst_id, w.src_path, w.root / "dstdir" / ("m" * 300), None, None)
+                        obs["put_requests_with_over_long_names"] = obs.get("put_requests_with_over_long_names", 0) + 1
                     else:
                         path = w.root / "srcdir" / ("empty.bin" if pk == "empty" else "missing.bin")
                         if pk == "empty":
@@ -439,4 +448,4 @@ def finalize(ctx):
     return [], inc
 
 
-REQUIRED = {"pdus_together_with_timer_expiry": 500, "resets_with_undrained_queue": 500, "enumerated_sequences": 5000, "fuzz_cases": 200, "pdus_to_busy_handler": 2000, "admission_rejections_checked": 500, "loop_cases": 200, "calls_returned": 2000}
+REQUIRED = {"put_requests_with_over_long_names": 50, "pdus_together_with_timer_expiry": 500, "resets_with_undrained_queue": 500, "enumerated_sequences": 5000, "fuzz_cases": 200, "pdus_to_busy_handler": 2000, "admission_rejections_checked": 500, "loop_cases": 200, "calls_returned": 2000}
